@@ -124,8 +124,45 @@ func pickN(rng *rand.Rand, tier string) int {
 	}
 }
 
+// propOf maps a population name to the property whose violations it reports.
+func propOf(p string) string {
+	switch p {
+	case "C03scale":
+		return "C03"
+	case "C01fanin":
+		return "C01"
+	case "C19fanin":
+		return "C19"
+	}
+	return p
+}
+
+// generateFanIn: one job that depends on more than 2^16 others, nearly all of
+// them still outstanding when it is submitted; state reports every step or two.
+func generateFanIn(rng *rand.Rand, prop string, gomaxprocs int) *Desc {
+	d := &Desc{Engine: "l1", Prop: prop, GOMAXPROCS: gomaxprocs, Policy: "submit-all-first"}
+	s := SchedD{N: 1 + rng.Intn(2), COE: rng.Intn(2) == 0, Emitter: true, FreqSteps: 2 + rng.Intn(2), FreqOdd: 2*rng.Intn(1<<19) + 1}
+	n := 1<<16 + 3000 + rng.Intn(6000)
+	s.Jobs = make([]JobD, n+1)
+	deps := make([]int, n)
+	for i := range deps {
+		deps[i] = i
+	}
+	s.Jobs[n] = JobD{Deps: deps, Len: 1}
+	if rng.Intn(2) == 0 {
+		s.Jobs = append(s.Jobs, JobD{Deps: []int{n}}) // and something behind the join
+	}
+	d.Scheds = []SchedD{s}
+	d.Budget = 40 * (n + 100)
+	d.FairAfter = d.Budget / 2
+	return d
+}
+
 // Generate draws a run descriptor for the given property's population.
 func Generate(rng *rand.Rand, prop, tier string, gomaxprocs int) *Desc {
+	if prop == "C01fanin" || prop == "C19fanin" {
+		return generateFanIn(rng, prop, gomaxprocs)
+	}
 	d := &Desc{Engine: "l1", Prop: prop, GOMAXPROCS: gomaxprocs}
 	maxJobs := 14
 	if tier == "thorough" {
